@@ -170,12 +170,25 @@ let dispatch fn a =
   | "spec_national_accept" ->
     let s = x_clean (t 0) in
     string_of_bool' (s_iso_ok s && s_published_ok (x_iban_cc s) (x_iban_bban s))
-  | "spec_only_rejects" | "spec_generate" | "spec_generate_national" | "spec_rebuild" -> "OK"
+  | "spec_only_rejects" | "spec_generate" | "spec_generate_national" | "spec_rebuild" | "spec_random" -> "OK"
   | "spec_published" -> string_of_bool' (s_published_ok (t 0) (t 1))
   | "algo_validate" -> out string_of_bool' (x_algo_validate (t 0) (texts_of_string a.(1)) (t 2))
   | "algo_compute" -> out string_of_text (x_algo_compute (t 0) (texts_of_string a.(1)))
   | "spec_german" ->
     (match s_bb (t 0) (t 1) with Some true -> "1" | Some false -> "0" | None -> "NOSPEC")
+  | "random" ->
+    (* kind (bban|iban), cc, use_registry, pins "k=v;k=v" (texts), country idx, bank idx, draws *)
+    let pins = List.map (fun kv -> match String.split_on_char '=' kv with
+                                   | [k; v] -> (text_of_string k, text_of_string v) | _ -> failwith "pin")
+                 (if a.(3) = "" then [] else String.split_on_char ';' a.(3)) in
+    let ci = int_of_string a.(4) and bi = int_of_string a.(5) in
+    let draws = texts_of_string a.(6) in
+    let rec nat_of_int n = if n <= 0 then O else S (nat_of_int (n - 1)) in
+    if a.(0) = "bban" then
+      out (fun (cc, bb) -> string_of_text cc ^ " " ^ string_of_text bb)
+        (x_random_bban (Lazy.force banks) (t 1) (b 2) pins (nat_of_int ci) (nat_of_int bi) draws)
+    else
+      out string_of_text (x_random_iban (Lazy.force banks) (t 1) (b 2) pins (nat_of_int ci) (nat_of_int bi) draws)
   | "spec_iso_ok" -> string_of_bool' (s_iso_ok (t 0))
   | "spec_check_digits" -> string_of_text (s_check_digits (t 0) (t 1))
   | "spec_conforms" -> string_of_bool' (s_conforms (t 0) (t 1))
